@@ -39,7 +39,18 @@ def cases(tier, seed):
         c['nblocks'] = int(rng.integers(2, 5))
         c['dt'] = float(rng.choice([0.05, 0.1, 0.01, 0.03, float(10 ** rng.uniform(-2.5, -1))]))
         c['t0'] = float(rng.choice([0.0, 0.0, 0.3, 1.7, float(rng.uniform(-2, 5))]))
+        if i % 4 == 3:
+            c['e_tol'] = float(10 ** rng.uniform(-9, -4))  # stop on the increment: level status variables registered by a convergence controller
+            c['mssdc_jac'] = False
         c['_cost'] = c['num_procs'] * c['nlev'] * c['nblocks']
+        if i % (10 if tier == 'quick' else 12) == 1:
+            c['twin'] = ['node_type', 'quad_type', 'node_type', 'dt', 'node_type', 'QI'][(i // 10) % 6]
+            if c['twin'] == 'node_type':
+                # sweep-dependent coefficients on an implicit sweeper are the natural candidates for a cache keyed too coarsely
+                c['QI'] = ['MIN-SR-FLEX', 'FLEX-JUMPER', 'MIN-SR-S'][(i // 20) % 3]
+                c['prob'] = ['dahlquist', 'heat', 'dense'][(i // 10) % 3]
+                c['initial_guess'] = 'spread'
+            c['_cost'] += 12
         cs.append(c)
     return cs
 
@@ -82,6 +93,59 @@ def run_unrelated(ctrl):
     ctrl.run(P.u_exact(0.0), 0.0, 0.1)
 
 
+def twin_of(case, which):
+    """a configuration one parameter away from `case` (same node counts, so that anything cached per (name, type, count) collides)"""
+    t = dict(case)
+    if which == 'node_type':
+        t['nt'] = [x for x in ('LEGENDRE', 'EQUID', 'CHEBY-2', 'CHEBY-4') if x != case['nt']][case['pseed'] % 3]
+    elif which == 'quad_type':
+        t['qt'] = 'LOBATTO' if case['qt'] == 'RADAU-RIGHT' else 'RADAU-RIGHT'
+        t['Ms'] = [max(2, m) for m in case['Ms']]
+    elif which == 'dt':
+        t['dt'] = case['dt'] * 0.37
+    elif which == 'QI':
+        t['QI'] = 'IE' if case['QI'] != 'IE' else 'LU'
+    return t
+
+
+def solo_run(case, first=None):
+    """run `case` on a fresh controller (optionally after running another configuration first) and return digests; executed in
+    a fresh interpreter by the near-twin relation"""
+    from pySDC.implementations.hooks.log_solution import LogSolution
+
+    from vf.gen import build_controller
+    from vf.mon.tracehook import find_hook, make_trace_hook
+
+    out = None
+    for cfg in ([first] if first else []) + [case]:
+        H = make_trace_hook(digests={'post_step'})
+        ctrl, _ = build_controller(cfg, hooks=[LogSolution, H])
+        P = ctrl.MS[0].levels[0].prob
+        rng = np.random.default_rng(cfg['pseed'] + 3)
+        u0 = P.u_init
+        shp = np.asarray(u0).shape
+        u0[...] = rng.standard_normal(shp) + (1j * rng.standard_normal(shp) if np.iscomplexobj(np.asarray(u0)) else 0)
+        procs, dt, t0 = cfg['num_procs'], cfg['dt'], cfg['t0']
+        Tend = t0 + (procs * cfg['nblocks'] - 0.5) * dt
+        uend, stats = ctrl.run(u0, t0, Tend)
+        ev = find_hook(ctrl, H).events
+        out = dict(uend=digest(uend), steps=[[repr(e['time']), repr(e['dt']), e['iter'], e['dig'][0]['uend']] for e in ev if e['cb'] == 'post_step' and not e.get('restart')])
+    return out
+
+
+def solo_in_fresh_interpreter(case, first=None):
+    import json
+    import subprocess
+    import sys
+
+    code = 'import json, sys\nfrom vf.checks.C19 import solo_run\nd = json.load(sys.stdin)\nprint("RESULT" + json.dumps(solo_run(d["case"], d["first"])))'
+    p = subprocess.run([sys.executable, '-c', code], input=json.dumps(dict(case=case, first=first)), capture_output=True, text=True, timeout=600)
+    for ln in p.stdout.splitlines():
+        if ln.startswith('RESULT'):
+            return json.loads(ln[6:])
+    raise RuntimeError(f'fresh interpreter failed: {p.stderr[-800:]}')
+
+
 def run_case(case):
     from pySDC.implementations.hooks.log_solution import LogSolution
 
@@ -91,7 +155,7 @@ def run_case(case):
     from vf.ref import sdc as ref
 
     r = Result(case)
-    r.key = config_key(case) + f"/{case['dt']}/{case['t0']}/{case['nblocks']}/{case['maxiter']}"
+    r.key = config_key(case) + f"/{case['dt']}/{case['t0']}/{case['nblocks']}/{case['maxiter']}/{case.get('e_tol')}"
     tag = r.key
     try:
         for M in case['Ms']:
@@ -191,6 +255,21 @@ def run_case(case):
     ref_short = execute(c5, u_init(c5), t0, Tshort)
     used_short = execute(c4, u_init(c4), t0, Tshort)
     same(ref_short, used_short, 'used-controller-equals-fresh-on-other-interval', mech='random-initial-guess-rng-not-rewound-between-runs' if rnd else ('k-dependent-preconditioner-state-survives-a-run' if kdep else None))
+    # R7 a near-twin configuration (one parameter away) run first in the same process must not change the results: both
+    # orders are executed in fresh interpreters, because caches that leak between controllers also leak between the cases
+    # of this worker process
+    if case.get('twin') and not rnd:
+        tw = twin_of(case, case['twin'])
+        try:
+            alone = solo_in_fresh_interpreter({k: v for k, v in case.items() if not k.startswith('_')})
+            after = solo_in_fresh_interpreter({k: v for k, v in case.items() if not k.startswith('_')}, first={k: v for k, v in tw.items() if not k.startswith('_')})
+        except Exception as e:  # noqa
+            r.count('twin_runs_failed')
+            alone = after = None
+        if alone is not None:
+            mech7 = 'space-transfer-matrices-not-bit-reproducible-across-constructions' if spacec and len(alone['steps']) == len(after['steps']) and all(a[:3] == b[:3] for a, b in zip(alone['steps'], after['steps'])) else None
+            r.check(alone == after, 'unaffected-by-near-twin-controller', f"{tag}: run after a controller differing only in {case['twin']} ({tw['nt']}/{tw['qt']}/{tw['QI']}/dt {tw['dt']}) differs from the run alone (fresh interpreters): steps {after['steps'][:2]} vs {alone['steps'][:2]}", mech=mech7)
+            r.count('twin_relations')
     # R5 split at every block boundary, continue on the same controller and on a fresh one
     ref_steps = base['steps']
     for kb in range(1, case['nblocks']):
@@ -244,7 +323,7 @@ def run_case(case):
 def finalize(agg):
     out = []
     c = agg['counters']
-    for k in ('oracle:fresh-controller-reproduces', 'oracle:same-controller-rerun-reproduces', 'oracle:fresh-after-unrelated-controller', 'oracle:interleaved-with-unrelated-controller', 'oracle:split-run-bit-identical'):
+    for k in ('oracle:fresh-controller-reproduces', 'oracle:same-controller-rerun-reproduces', 'oracle:fresh-after-unrelated-controller', 'oracle:interleaved-with-unrelated-controller', 'oracle:split-run-bit-identical', 'oracle:unaffected-by-near-twin-controller'):
         if c.get(k, 0) == 0:
             out.append(f'monitor {k} never evaluated')
     return out
